@@ -281,6 +281,74 @@ Theorem C05_partition_ok_sound : forall s pods,
 Proof. exact partition_ok_sound. Qed.
 Print Assumptions C05_partition_ok_sound.
 
+(* ---- processNextReq WITH its error path (handleJobError).  [step_reqb] is what a request step of a history
+   is: processNextReq ([step_req]); an Execute that fails re-queues the request while NumRequeues(request)
+   < maxRequeueNum (or maxRequeueNum = -1), a success forgets it; with the budget used up the controller
+   GIVES UP: it executes TerminateJobAction through the state object it built before the failed Execute
+   and drops the request.  [reqb_result] (C05/Lemmas.v): the step is either step_req (requeue counters
+   aside) or a failed step_req followed by [execute wg ATerminate] -- an ordinary Execute of the state of
+   the phase the cache showed before, on [giveup_world]: the job object of then (stale_view: after a first
+   sync whose initJobStatus wrote) and the pod view the failed Execute left in its JobInfo clone
+   (view_after: syncJob removes every pod it matched from the clone's maps). ---- *)
+Theorem C05_giveup_is_terminate : forall w r F w' e wr,
+  step_reqb w r F = (w', e, wr) -> reqb_result w r F w' e wr.
+Proof. exact step_reqb_cases. Qed.
+Print Assumptions C05_giveup_is_terminate.
+
+(* consequently every lifecycle clause holds for the whole step, give-up included, for every requeue
+   budget, requeue count and fault plan of either execution *)
+Theorem C05_reqb_phase_transition_allowed : forall w r F w' e wr,
+  step_reqb w r F = (w', e, wr) -> In (st_phase (v_st w')) (allowed (st_phase (v_st w))).
+Proof. exact reqb_phase_transition_allowed. Qed.
+Print Assumptions C05_reqb_phase_transition_allowed.
+
+Theorem C05_reqb_api_phase : forall w r F w' e wr,
+  phase_agree w -> step_reqb w r F = (w', e, wr) ->
+  phase_agree w' /\ In (st_phase (w_st w')) (allowed (st_phase (w_st w))).
+Proof. exact reqb_api_phase. Qed.
+Print Assumptions C05_reqb_api_phase.
+
+(* giving up on a request of a Completed / Failed / Terminated job changes no phase and creates no pod *)
+Theorem C05_reqb_final : forall w r F w' e wr,
+  is_final (st_phase (v_st w)) = true -> st_phase (w_st w) = st_phase (v_st w) ->
+  step_reqb w r F = (w', e, wr) ->
+  st_phase (v_st w') = st_phase (v_st w) /\ st_phase (w_st w') = st_phase (v_st w) /\
+  incl (pod_ids (w_pods w')) (pod_ids (w_pods w)).
+Proof. exact reqb_final. Qed.
+Print Assumptions C05_reqb_final.
+
+(* ... and never takes a job out of Aborted *)
+Theorem C05_reqb_aborted_left_only_by_resume : forall w r F w' e wr,
+  step_reqb w r F = (w', e, wr) ->
+  st_phase (v_st w) = PhAborted -> st_phase (v_st w') <> PhAborted ->
+  apply_policies (v_spec w) (v_st w) r = AResume /\ st_phase (v_st w') = PhRestarting.
+Proof. exact reqb_aborted_left_only_by_resume. Qed.
+Print Assumptions C05_reqb_aborted_left_only_by_resume.
+
+Theorem C05_reqb_retry_increments_once : forall w r F w' e wr,
+  step_reqb w r F = (w', e, wr) ->
+  let s := v_st w in let s' := v_st w' in
+  (st_retry s' = st_retry s \/
+   (st_retry s' = st_retry s + 1 /\ st_phase s' = PhRestarting /\ st_phase s <> PhRestarting)) /\
+  (st_phase s <> PhRestarting -> st_phase s' = PhRestarting -> st_retry s' = st_retry s + 1).
+Proof. exact reqb_retry_increments_once. Qed.
+Print Assumptions C05_reqb_retry_increments_once.
+
+Theorem C05_reqb_maxretry_fails : forall w r F w' e wr,
+  step_reqb w r F = (w', e, wr) ->
+  st_phase (v_st w) = PhRestarting -> s_maxretry (v_spec w) <= st_retry (v_st w) ->
+  st_phase (v_st w') = PhRestarting \/ st_phase (v_st w') = PhFailed.
+Proof. exact reqb_maxretry_fails. Qed.
+Print Assumptions C05_reqb_maxretry_fails.
+
+(* a request processed without an error never reaches handleJobError: the full-strength counters statement
+   carries over; nothing is claimed about the counters a give-up writes (see level_note) *)
+Theorem C05_counters_partition_reqb : forall w r w' wr,
+  step_reqb w r [] = (w', false, wr) -> wr = true -> fresh_all w ->
+  (st_cnt (w_st w'), st_term (w_st w')) = tally (w_pods w').
+Proof. exact counters_partition_reqb. Qed.
+Print Assumptions C05_counters_partition_reqb.
+
 Example C05_fixed_on_pgpending_witness :
   exists w', step_req pgpending_world sync_req [] = (w', false, true) /\
              partition_ok (w_st w') (w_pods w') = true /\ st_phase (w_st w') = PhFailed /\ st_term (w_st w') = 0.
@@ -364,3 +432,24 @@ Example C05_nonvacuous_version :
   apply_policies ver_spec (v_st w1) (ver_req 0) = ASync /\
   apply_policies ver_spec (v_st w1) (ver_req 1) = ARestartJob.
 Proof. exact version_example. Qed.
+
+Example C05_nonvacuous_giveup :
+  let sp := mkSpec [mkTask 1 1 (Some 1) [] None] 1 None 3 [] in
+  let st ph := mkStatus ph 0 0 1 (mkC 0 1 0 0 0) 0 [(1%positive, mkC 0 1 0 0 0)] false false in
+  let w ph := init_world_m 0 true sp (st ph) [mkPod 1 0 PRunning false false] (Some PgRunning) in
+  let r := mkReq EOutOfSync None None None 0 0 1 in
+  forall ph, In ph [PhCompleted; PhAborted] ->
+  exists w', step_reqb (w ph) r [FDelete 1 0] = (w', true, true) /\ q_gave (c_rq (v_ctl w')) = true /\
+             st_phase (w_st w') = ph /\ st_phase (v_st w') = ph /\
+             w_pods w' = [mkPod 1 0 PRunning true true].
+Proof. exact giveup_example. Qed.
+
+(* observation, not a theorem about the property: what giving up on a SYNC does (see docs/notes/C05.md) *)
+Example C05_giveup_consumed_view :
+  let sp := mkSpec [mkTask 1 2 (Some 2) [] None] 2 None 3 [] in
+  let pods := [mkPod 1 0 PRunning false false; mkPod 1 1 PRunning false false] in
+  let w := init_world_m 0 true sp (mkStatus PhRunning 0 0 2 (mkC 0 1 0 0 0) 0 [] false false) pods (Some PgRunning) in
+  exists w', step_reqb w (mkReq EOutOfSync None None None 0 0 1) [FStatus 0] = (w', true, true) /\
+             q_gave (c_rq (v_ctl w')) = true /\ st_phase (w_st w') = PhTerminating /\
+             st_cnt (w_st w') = c0 /\ st_term (w_st w') = 0 /\ w_pods w' = pods /\ w_pg w' = None.
+Proof. exact giveup_consumed_view_example. Qed.
